@@ -3,5 +3,5 @@ CONSTANTS
   SimDepth = 0
 INIT Init
 NEXT Next
-INVARIANTS TypeOK ConcatLaw LastWins ErrorsStick Emit EmitSpecials
+INVARIANTS TypeOK ConcatLaw LastWins LaterWins ErrorsStick Emit EmitSpecials
 CHECK_DEADLOCK FALSE
